@@ -35,9 +35,9 @@ package webtransport
 //@   let b0 = uf_u8_in(c.br, p0)
 //@   let n7 = int64(b0 & 0x7f)
 //@   let L  = n7 == 126 ? int64(in16(c.br, p0+1)) : (n7 == 127 ? int64(in64(c.br, p0+1)) : n7)
-//@   ensures [C14.dec.kind]  result1 == nil ==> result0 == int((b0 & 0x80) >> 7) + 1
+//@   ensures [C14.dec.kind,C13.readkind]  result1 == nil ==> result0 == int((b0 & 0x80) >> 7) + 1
 //@   ensures [C14.dec.kind2] result1 == nil ==> (result0 == BinaryMessage <==> b0 & 0x80 != 0) && (result0 == TextMessage <==> b0 & 0x80 == 0)
-//@   ensures [C14.dec.len]   result1 == nil ==> c.readRemaining == L && L >= 0
+//@   ensures [C14.dec.len,C13.readlen]   result1 == nil ==> c.readRemaining == L && L >= 0
 //@   ensures [C14.dec.pos]   result1 == nil ==> c.br.$pos == p0 + (n7 == 126 ? 3 : (n7 == 127 ? 9 : 1))
 //@   ensures [C15.acc]       result1 == nil ==> c.readLength == old(c.readLength) + L && c.readLength >= 0
 //@   ensures [C15.limit,C10.wt] result1 == nil ==> (c.readLimit <= 0 || c.readLength <= c.readLimit)
